@@ -114,6 +114,10 @@ func Harness_C17_recipient_string() {
 	V.Reach("accepted")
 	V.Assert(validRef(string(nb)), "a recipient string with a plugin name outside the allow-list was accepted")
 	V.Assert(r.Name() == string(nb), "recipient reports another plugin name than the string carries")
+	// C09: the accepted spelling is the canonical one
+	if pn, pd, perr := ParseRecipient(s); perr == nil && V.Param("canon", 0) == 1 {
+		V.Assert(EncodeRecipient(pn, pd) == s, "an accepted plugin recipient string does not re-encode to itself")
+	}
 	_, werr := r.Wrap(make([]byte, 16))
 	V.Assert(werr != nil || !V.Symbolic(), "wrap succeeded without a plugin")
 	checkExec(string(nb))
@@ -141,6 +145,9 @@ func Harness_C17_identity_string() {
 	V.Assert(validRef(string(nb)), "an identity string with a plugin name outside the allow-list was accepted")
 	want := strings.ToLower(string(nb))
 	V.Assert(id.Name() == want, "identity reports another plugin name than the string carries")
+	if pn, pd, perr := ParseIdentity(s); perr == nil && V.Param("canon", 0) == 1 {
+		V.Assert(EncodeIdentity(pn, pd) == s, "an accepted plugin identity string does not re-encode to itself")
+	}
 	_, uerr := id.Unwrap([]*age.Stanza{{Type: "x", Args: []string{"a"}}})
 	V.Assert(uerr != nil || !V.Symbolic(), "unwrap succeeded without a plugin")
 	checkExec(want)
